@@ -5,7 +5,8 @@ from vf import common
 CHECK = dict(
     id="C49", level="fault_enumeration",
     rule=("loop-free programs of random decodable integer instructions per architecture mode whose "
-          "registers point at unmapped bytes, a read-only page or a page boundary, run on the Python and GCC "
+          "registers point at unmapped bytes, a read-only page, a page boundary or a 3-byte read-only page / "
+          "2-byte hole lying between writable bytes, run on the Python and GCC "
           "back ends with jit_maxline in {1,2,4,50} (faulting instruction at the start, middle or end of its "
           "block); at the first access violation: PC must be an instruction start, the fault flag set, and "
           "registers and every memory byte equal to the pre-instruction snapshot taken by a single-step "
@@ -44,7 +45,9 @@ def full_map(jitlib, prog):
     q.pages = []
     for addr, perm, data, name in prog.pages:
         q.pages.append((addr, PAGE_READ | PAGE_WRITE, data, name))
-    q.pages.append((L.HOLE, PAGE_READ | PAGE_WRITE, bytes((i * 7 + 3) & 0xff for i in range(jitlib.PAGE)), "hole"))
+    for h, (a, sz) in enumerate(prog.holes):
+        q.pages.append((a, PAGE_READ | PAGE_WRITE, bytes((i * 7 + 3) & 0xff for i in range(sz)), "hole%d" % h))
+    q.holes = []
     return q
 
 
@@ -63,7 +66,7 @@ def run_shard(params, rec):
     for i in range(params["n"]):
         # delay-slot architectures: a counted loop puts a (possibly faulting) instruction in a delay slot
         with_loop = spec.family == "mips32" and rng.random() < 0.5
-        mode = rng.choice([None, "straddle", "straddle", "split", "split"])
+        mode = rng.choice([None, "straddle", "straddle", "split", "split", "tiny", "tiny"])
         prog = jitlib.make_prog(spec, rng, pool, rng.randrange(2, 9), with_loop=with_loop, mode=mode,
                                 fault_bias=rng.choice([0.3, 0.5, 0.8]))
         rec.count("mode:%s" % mode)
@@ -163,9 +166,12 @@ def run_shard(params, rec):
         try:
             j.vm.set_exception(0)
             j.cpu.set_exception(0)
-            j.vm.add_memory_page(L.HOLE, PAGE_READ | PAGE_WRITE,
-                                 bytes((k * 7 + 3) & 0xff for k in range(jitlib.PAGE)), "hole")
-            j.vm.set_mem_access(L.DATA_RO, PAGE_READ | PAGE_WRITE)
+            for h, (a_, sz) in enumerate(prog.holes):
+                j.vm.add_memory_page(a_, PAGE_READ | PAGE_WRITE, bytes((k * 7 + 3) & 0xff for k in range(sz)),
+                                     "hole%d" % h)
+            for a_, perm, data, name in prog.pages:
+                if not perm & PAGE_WRITE:
+                    j.vm.set_mem_access(a_, PAGE_READ | PAGE_WRITE)
             res = jitlib.Outcome()
             res.jitter = j
             try:
